@@ -515,7 +515,7 @@ function valuesProject(rng) {
 // shapes behind the repaired D86–D89: enums with string-named members, user types called like a built-in used as type
 // arguments next to the built-in, generics that re-instantiate themselves with larger arguments, circles of re-exports
 function oddProject(rng) {
-  switch (rng.below(7)) {
+  switch (rng.below(8)) {
     case 0: {
       const ms = ['"a-b" = "x"', 'B = "y"', '"c d" = 1', "D", 'E = "e"'].filter(() => rng.chance(2, 3));
       if (!ms.length) ms.push('"k-1" = "v"');
@@ -561,6 +561,13 @@ function oddProject(rng) {
         "const a = [a];\ntype T = typeof a;", "const a = { ...b };\nconst b = { ...a };\ntype T = typeof b;", "const a = { k: 1 };\nconst b = { p: a, q: a };\ntype T = typeof b;",
         "type T = 1e999 | 2;", "type T = -1e999;", "type T = { k: 1e400 };", "const inf = 1e999;\ntype T = typeof inf;", "type T = `${1e999}`;"]);
       return [["entry.ts", shape + "\nparse.buildParsers<{ E0: T }>();\n"]];
+    }
+    case 6: {
+      // calls of buildParsers that are malformed at the level of the decoder list: whatever the answer, a module that is
+      // returned must build every name the call asks for (the marker comment carries the names for the oracle)
+      const [arg, names] = rng.pick([["{ A: A; m(): void }", "A,m"], ['{ A: A; "a-b": number }', "A,a-b"], ["{ A: A; [k: string]: number }", "A"], ["{ A: A; b }", "A,b"],
+        ["Parsers", "A"], ["{ A: A }, { B: A }", "A,B"], ["{ A: A; get g(): number }", "A,g"], ["{ A: A; [\"c\"]: A }", "A,c"], ["{ A: A; readonly B: A }", "A,B"], ["{ A: A; B?: A }", "A,B"]]);
+      return [["entry.ts", `/*names:${names}*/\ntype A = { k: string };\ntype Parsers = { A: A };\nparse.buildParsers<${arg}>();\n`]];
     }
     default: {
       // (sometimes far beyond any nesting limit: the answer must then be a diagnostic, not an exhausted stack)
@@ -766,6 +773,9 @@ export function makeRunner(rt_, mode, build) {
         let parsers = null;
         try { parsers = (await loadEmitted(build, compiled[1])).buildParsers({ stringFormats: {}, numberFormats: {} }); } catch (e) { fail.push(A("c04.load")); }
         if (parsers && Array.isArray(req[2])) for (const [name] of req[2][2]) if (!parsers[name]) fail.push(A("c04.missing-parser"));
+        // (projects written as text carry the requested names in a marker comment)
+        const marker = /^\/\*names:([^*]*)\*\//.exec((files.find(([n]) => n === "entry.ts") || ["", ""])[1]);
+        if (parsers && marker) for (const name of marker[1].split(",")) if (!Object.prototype.hasOwnProperty.call(parsers, name)) fail.push(A("c04.missing-parser"));
         if (parsers) for (const k of Object.keys(parsers)) { try { parsers[k].validate(1); parsers[k].hash256(); } catch (e) { fail.push(A("c04.parser-throws")); } }
         return [[A("outcome"), A("ok")], fail.length ? [A("oracle"), A("fail"), ...fail] : [A("oracle"), A("ok")]];
       }
